@@ -26,6 +26,8 @@ inductive Prim where
   | weekday
   | month
   | fixedOffset
+  /-- a bare `write_var_u32` (chrono's year / nanosecond fields, hand-written codecs) -/
+  | varu32
 deriving Repr, DecidableEq, Inhabited
 
 inductive Ty where
